@@ -8,11 +8,7 @@ use crate::{
     plan::*,
     run::{on_read, Coord, CoordChanged, QErr, SharedApp, ALPN},
 };
-use core::{
-    future::Future,
-    task::Poll,
-    time::Duration,
-};
+use core::{future::Future, task::Poll, time::Duration};
 use s2n_quic::provider::io::testing as io;
 use s2n_quic_core::{crypto::tls::testing::certificates, inet::ExplicitCongestionNotification};
 use simkit::{hashn, payload_fill};
@@ -118,6 +114,9 @@ pub struct QHost {
     next_open_ns: u64,
     wake_ns: Option<u64>,
     t0: Option<(u64, Instant)>,
+    /// server role: the client's original destination connection id
+    odcid: Option<Vec<u8>>,
+    iterations: u64,
 }
 
 enum Wake {
@@ -157,7 +156,7 @@ impl QHost {
                 failed: false,
             });
         }
-        QHost { plan, app, net, coord, sock, local, peer, streams, next_open_ns: 0, wake_ns: None, t0: None }
+        QHost { plan, app, net, coord, sock, local, peer, streams, next_open_ns: 0, wake_ns: None, t0: None, odcid: None, iterations: 0 }
     }
 
     /// every call into quiche happens at the current virtual instant
@@ -228,7 +227,7 @@ impl QHost {
             if now_ns() >= cap_ns || self.coord.s2n_closed() {
                 return None;
             }
-            let (from, mut payload) = match self.wait(None, cap_ns).await {
+            let (from, payload) = match self.wait(None, cap_ns).await {
                 Wake::Packet(f, p) => (f, p),
                 _ => continue,
             };
@@ -254,7 +253,7 @@ impl QHost {
             let (scid, odcid) = if plan.quiche.retry {
                 if token.is_empty() {
                     // stateless retry (token = tag + original dcid, as in quiche's example server)
-                    let new_scid = cid_bytes(key, 100, cid_len.max(8));
+                    let new_scid = cid_bytes(key, 100, cid_len);
                     let mut tok = b"interop".to_vec();
                     tok.extend_from_slice(&hdr.dcid);
                     let new_scid = quiche::ConnectionId::from_vec(new_scid);
@@ -280,7 +279,7 @@ impl QHost {
             let local = self.local;
             match self.q(|| quiche::accept(&scid, odcid.as_ref(), local, from, config)) {
                 Ok(c) => {
-                    payload.truncate(payload.len());
+                    self.odcid = Some(hdr.dcid.to_vec());
                     return Some((c, from, payload));
                 }
                 Err(e) => {
@@ -291,7 +290,37 @@ impl QHost {
         }
     }
 
+    /// What a quiche application does before `recv`: route by destination connection id.  A
+    /// datagram whose id is not (or no longer) one of this connection's source ids - e.g. a
+    /// reordered packet that still carries an id the peer has retired since - is not handed to
+    /// the connection (quiche's example server ignores such packets); `Connection::recv` treats
+    /// an unknown id as a protocol violation because it expects this demultiplexing.
+    fn routable(&mut self, conn: &mut quiche::Connection, payload: &[u8]) -> bool {
+        let cid_len = self.q(|| conn.source_id().len());
+        let mut copy = payload.to_vec();
+        let hdr = match self.q(|| quiche::Header::from_slice(&mut copy, cid_len)) {
+            Ok(h) => h,
+            // let quiche count it as an invalid packet
+            Err(_) => return true,
+        };
+        if self.q(|| conn.source_ids().any(|c| *c == hdr.dcid)) {
+            return true;
+        }
+        // server: Initial packets keep the client-chosen id until the client has seen ours
+        if let Some(od) = &self.odcid {
+            if hdr.ty != quiche::Type::Short && hdr.dcid.as_ref() == od.as_slice() {
+                return true;
+            }
+        }
+        false
+    }
+
     fn feed(&mut self, conn: &mut quiche::Connection, from: SocketAddr, mut payload: Vec<u8>) {
+        if !self.routable(conn, &payload) {
+            *self.app.lock().unwrap().q.recv_errs.entry("unroutable_dcid(dropped by the demultiplexer)".into()).or_insert(0) += 1;
+            self.note(format!("quiche host: datagram of {} bytes for an unknown/retired connection id dropped", payload.len()));
+            return;
+        }
         let local = self.local;
         let r = self.q(|| conn.recv(&mut payload, quiche::RecvInfo { from, to: local }));
         match r {
@@ -407,7 +436,20 @@ impl QHost {
             }
             loop {
                 let sent = self.streams[ix].sent;
-                let n = chunk.min(total - sent) as usize;
+                let mut n = chunk.min(total - sent) as usize;
+                // like a real quiche application, write only when the stream can take data: a
+                // write attempt on a blocked stream re-arms DATA_BLOCKED / STREAM_DATA_BLOCKED,
+                // and retrying on every wake-up turns that into a ping-pong storm
+                if n > 0 {
+                    match self.q(|| conn.stream_capacity(id)) {
+                        Ok(0) => break,
+                        // offering one byte more than fits keeps quiche's "blocked" signalling
+                        // without generating payload that cannot be accepted anyway
+                        Ok(cap) => n = n.min(cap + 1),
+                        // not created yet (first write opens it) / let stream_send report it
+                        Err(_) => n = n.min(65536),
+                    }
+                }
                 let fin = sent + n as u64 == total;
                 let mut data = vec![0u8; n];
                 payload_fill(plan.data_key, 0, id, Side::Quiche.idx(), sent, &mut data);
@@ -567,7 +609,13 @@ impl QHost {
                 break;
             }
             if now_ns() >= cap_ns {
+                // the wrapper's cap timer and ours fire at the same instant: record it here
+                self.app.lock().unwrap().capped.push("quiche/host(loop)".into());
                 break;
+            }
+            self.iterations += 1;
+            if self.iterations % 256 == 0 {
+                self.snapshot(&mut conn);
             }
             let timeout = self.q(|| conn.timeout());
             if timeout == Some(Duration::ZERO) {
@@ -594,17 +642,3 @@ impl QHost {
     }
 }
 
-// the future returned by `run` crosses `primary::spawn`, which wants Send
-unsafe impl Send for QHost {}
-
-#[allow(dead_code)]
-fn _assert_future_is_send() {
-    fn is_send<T: Send>(_: &T) {}
-    fn check(h: QHost) {
-        let f = h.run(0);
-        is_send(&f);
-    }
-    let _ = check;
-}
-
-pub fn _unused(_: &dyn Future<Output = ()>) {}
